@@ -183,6 +183,19 @@ func randomPhase(c *core.Case, h *crdt.Hist, steps int, quiescent *int) (string,
 				if sig, msg := h.CompareAll(); sig != "" {
 					return sig, msg
 				}
+				if r.Intn(2) == 0 {
+					// equal-clock burst: every replica issues one operation at the same place right
+					// after the quiescent point (all clocks are equal: the client-id tie-break alone
+					// orders them); pushes and deliveries follow in the random steps
+					ops := h.G.Burst(h.Reps)
+					h.S.Step("burst at equal clocks: %s", crdt.JS(ops))
+					for i, op := range ops {
+						if _, _, sig, msg := h.Local(h.Reps[i], op); sig != "" {
+							return sig, msg
+						}
+					}
+					h.S.Count("equal_clock_bursts", 1)
+				}
 			}
 		}
 	}
